@@ -21,7 +21,7 @@ from vlib import gen, runner, storetrace
 
 PROPERTY = "C16"
 LEVEL = "exploration"
-TIMEOUT = {"quick": 900, "thorough": 5400}
+TIMEOUT = {"quick": 1500, "thorough": 7200}
 RULE = (
     "every public callable of cubed, cubed.array_api, cubed.array_api.linalg, cubed.random and the Array class found by "
     "introspection is called with generated arguments (through the recipe generator or the direct-call table) under the "
